@@ -183,7 +183,7 @@ def main():
     rnd = random.Random(seed)
     rnd.shuffle(jobs)
     jobs.sort(key=lambda j: -props.weight(j))
-    cap = 240 if tier == 'quick' else 3000
+    cap = 900 if tier == 'quick' else 5400      # per-job wall cap (a timeout is inconclusive); generous: the harness machine may be slower
     for j in jobs:
         j['timeout'] = cap
         if tier == 'thorough': j['export_smt2'] = 4
